@@ -108,8 +108,21 @@ func (*Thread).growValueStack
   props C10 C13 C01
   requires wfStack(vm) && 2 * len(vm.stack) < MAX_VALUE_STACK_SIZE
   requires forall j int :: 0 <= j && j < len(vm.callFrames) && !elem(vm.callFrames, j).isNative && !elem(vm.callFrames, j).sentinel ==> (elem(vm.callFrames, j).fp == 0 || (inOldStack(elem(vm.callFrames, j).fp, sbase(vm), len(vm.stack)) && emod(elem(vm.callFrames, j).fp - sbase(vm), 24) == 0))
+  requires olHead(vm) && olLinks(vm) && olPred(vm) && olMax(vm) && olGap(vm) && olUniq(vm) && olAlign(vm)
+  requires nodangling: forall u *Upvalue :: live(u) ==> allocated(u.slot)
   ensures wf: wfStack(vm)
   ensures size: len(vm.stack) == 2 * old(len(vm.stack)) && freshSlice(vm.stack)
+  ensures rebased: forall u *Upvalue :: old(openIn(vm, u)) ==> openIn(vm, u) && u.slot - sbase(vm) == old(u.slot - sbase(vm))
+  ensures onlyold: forall u *Upvalue :: openIn(vm, u) ==> old(openIn(vm, u))
+  ensures closedkept: forall u *Upvalue :: !old(openIn(vm, u)) ==> u.slot == old(u.slot)
+  ensures links2: forall u *Upvalue :: u.next == old(u.next)
+  ensures ohead: vm.openUpvalueHead == old(vm.openUpvalueHead) && olHead(vm)
+  ensures olinks: olLinks(vm)
+  ensures opred: olPred(vm)
+  ensures omax: olMax(vm)
+  ensures ogap: olGap(vm)
+  ensures ouniq: olUniq(vm)
+  ensures oalign: olAlign(vm)
   ensures offsets: soff(vm) == old(soff(vm)) && foff(vm) == old(foff(vm))
   ensures content: forall k int :: 0 <= k && k < old(len(vm.stack)) - 1 ==> slot(vm, k) == old(slot(vm, k))
   ensures frames: forall j int :: 0 <= j && j < len(vm.callFrames) && !old(elem(vm.callFrames, j).isNative) && !old(elem(vm.callFrames, j).sentinel) && old(elem(vm.callFrames, j).fp) != 0 ==> elem(vm.callFrames, j).fp - sbase(vm) == old(elem(vm.callFrames, j).fp - sbase(vm))
@@ -120,6 +133,11 @@ func (*Thread).growValueStack
     invariant forall j int :: 0 <= j && j < len(vm.callFrames) && (j >= range_idx || old(elem(vm.callFrames, j).isNative) || old(elem(vm.callFrames, j).sentinel)) ==> elem(vm.callFrames, j).fp == old(elem(vm.callFrames, j).fp)
     invariant forall j int :: 0 <= j && j < len(vm.callFrames) ==> elem(vm.callFrames, j).isNative == old(elem(vm.callFrames, j).isNative) && elem(vm.callFrames, j).sentinel == old(elem(vm.callFrames, j).sentinel)
     decreases len(vm.callFrames) - range_idx
+  loop 2
+    invariant cur: upvalue == nil || old(openIn(vm, upvalue))
+    invariant done: forall u *Upvalue :: old(openIn(vm, u)) ==> ite(upvalue != nil && old(u.slot) <= old(upvalue.slot), u.slot == old(u.slot), u.slot == newStackPtr + (old(u.slot) - oldStackPtr))
+    invariant others: forall u *Upvalue :: !old(openIn(vm, u)) ==> u.slot == old(u.slot)
+    decreases ite(upvalue == nil, 0, old(upvalue.slot) - oldStackPtr + 1)
 
 // ==== typed opcodes agree with the generic dispatch (C08) ================================
 // The compiler emits OP_INT only when the left operand is statically an Int (checked in the
@@ -233,6 +251,7 @@ spec fn olLinks(vm *Thread) bool = forall u *Upvalue :: openIn(vm, u) && u.next 
 spec fn olPred(vm *Thread) bool = forall u *Upvalue :: openIn(vm, u) && u != vm.openUpvalueHead ==> (exists p *Upvalue :: openIn(vm, p) && p.next == u)
 spec fn olMax(vm *Thread) bool = forall u *Upvalue :: openIn(vm, u) ==> vm.openUpvalueHead != nil && u.slot <= vm.openUpvalueHead.slot
 spec fn olGap(vm *Thread) bool = forall u *Upvalue :: forall w *Upvalue :: openIn(vm, u) && openIn(vm, w) && w.slot < u.slot ==> u.next != nil && w.slot <= u.next.slot
+spec fn olAlign(vm *Thread) bool = forall u *Upvalue :: openIn(vm, u) ==> emod(u.slot - sbase(vm), 24) == 0
 spec fn olUniq(vm *Thread) bool = forall u *Upvalue :: forall w *Upvalue :: openIn(vm, u) && openIn(vm, w) && u.slot == w.slot ==> u == w
 
 // capturing a stack slot: the result refers to exactly that slot; an upvalue that is already
@@ -240,8 +259,8 @@ spec fn olUniq(vm *Thread) bool = forall u *Upvalue :: forall w *Upvalue :: open
 // every other open upvalue stays on the list
 func (*Thread).captureUpvalue
   props C13
-  requires vm != nil && len(vm.stack) >= 1 && sbase(vm) > 0 && inStk(vm, slot)
-  requires olHead(vm) && olLinks(vm) && olPred(vm) && olMax(vm) && olGap(vm) && olUniq(vm)
+  requires vm != nil && len(vm.stack) >= 1 && sbase(vm) > 0 && inStk(vm, slot) && emod(slot - sbase(vm), 24) == 0
+  requires olHead(vm) && olLinks(vm) && olPred(vm) && olMax(vm) && olGap(vm) && olUniq(vm) && olAlign(vm)
   ensures ret != nil && ret.slot == slot && openIn(vm, ret)
   ensures shared: forall u *Upvalue :: old(openIn(vm, u)) && old(u.slot) == slot ==> ret == u
   ensures kept: forall u *Upvalue :: old(openIn(vm, u)) ==> openIn(vm, u) && u.slot == old(u.slot)
@@ -252,6 +271,7 @@ func (*Thread).captureUpvalue
   ensures max: olMax(vm)
   ensures gap: olGap(vm)
   ensures uniq: olUniq(vm)
+  ensures align: olAlign(vm)
   ensures stack: forall a int :: a >= 0 && a < old(sbase(vm)) + 24 * old(len(vm.stack)) ==> load(value.Value, a) == old(load(value.Value, a))
   ensures frame: vm.stack == old(vm.stack) && vm.sp == old(vm.sp) && vm.fp == old(vm.fp)
   loop 1
@@ -264,7 +284,7 @@ func (*Thread).captureUpvalue
 func (*Thread).opCloseUpvalues
   props C13
   requires vm != nil && len(vm.stack) >= 1 && sbase(vm) > 0
-  requires olHead(vm) && olLinks(vm) && olPred(vm) && olMax(vm) && olGap(vm) && olUniq(vm)
+  requires olHead(vm) && olLinks(vm) && olPred(vm) && olMax(vm) && olGap(vm) && olUniq(vm) && olAlign(vm)
   ensures below: forall u *Upvalue :: openIn(vm, u) ==> u.slot < lastToClose
   ensures kept: forall u *Upvalue :: old(openIn(vm, u)) && old(u.slot) < lastToClose ==> openIn(vm, u) && u.slot == old(u.slot)
   ensures closed: forall u *Upvalue :: old(openIn(vm, u)) && old(u.slot) >= lastToClose ==> closedUp(u) && upval(u) == old(upval(u))
@@ -275,10 +295,11 @@ func (*Thread).opCloseUpvalues
   ensures max: olMax(vm)
   ensures gap: olGap(vm)
   ensures uniq: olUniq(vm)
+  ensures align: olAlign(vm)
   ensures frame: vm.sp == old(vm.sp) && vm.fp == old(vm.fp) && vm.stack == old(vm.stack)
   loop 1
     invariant frame: vm.sp == old(vm.sp) && vm.fp == old(vm.fp) && vm.stack == old(vm.stack)
-    invariant ol: olHead(vm) && olLinks(vm) && olPred(vm) && olMax(vm) && olGap(vm) && olUniq(vm)
+    invariant ol: olHead(vm) && olLinks(vm) && olPred(vm) && olMax(vm) && olGap(vm) && olUniq(vm) && olAlign(vm)
     invariant kept: forall u *Upvalue :: old(openIn(vm, u)) && old(u.slot) < lastToClose ==> openIn(vm, u) && u.slot == old(u.slot)
     invariant closed: forall u *Upvalue :: old(openIn(vm, u)) && !openIn(vm, u) ==> old(u.slot) >= lastToClose && closedUp(u) && upval(u) == old(upval(u))
     invariant onlyold: forall u *Upvalue :: openIn(vm, u) ==> old(openIn(vm, u)) && u.slot == old(u.slot)
